@@ -463,7 +463,7 @@ def run(ck):
         ck.states += r.distinct
         ck.transitions += r.generated
         for a, (tk, gn) in r.coverage.items():
-            ck.cov[a] = ck.cov.get(a, 0) + tk
+            ck.cov[a] = ck.cov.get(a, 0) + gn
         ck.note("HttpFraming.tla side=%s: %s, %d generated streams" % (s, r.summary(), len(cases[s])))
         if r.violated:
             rp = ck.save_replay("impl_spec_" + s, {"tlc.out": r.out})
